@@ -279,8 +279,29 @@ def rule_vetting(repo, rep):
     return
   tr = tries[0]
 
+  def det_of_M(nm):
+    for n2 in ast.walk(f.node):
+      if isinstance(n2, ast.Assign) and isinstance(n2.value, ast.Call) and \
+              dn(n2.value.func) in (canon('numpy.linalg.slogdet'),
+                                    canon('numpy.linalg.det'),
+                                    canon('scipy.linalg.det')) and \
+              [ast.unparse(a) for a in n2.value.args][:1] == [Mname]:
+        if nm in [x.id for x in ast.walk(n2.targets[0])
+                  if isinstance(x, ast.Name)]:
+          return True
+    return False
+
   def pred_of(e):
     """atomic predicate -> 'neg' | 'nonfinite' | 'bad:<text>' | None"""
+    if isinstance(e, ast.Compare):
+      for side in [e.left] + list(e.comparators):
+        if isinstance(side, ast.Name) and det_of_M(side.id):
+          return 'bad:%s (a determinant sign: positive whenever an even ' \
+              'number of eigenvalues is negative)' % ast.unparse(e)
+        if isinstance(side, ast.Call) and dn(side.func) in (
+                canon('numpy.linalg.det'), canon('scipy.linalg.det')):
+          return 'bad:%s (a determinant sign: positive whenever an even ' \
+              'number of eigenvalues is negative)' % ast.unparse(e)
     qv = quant(e)
     if qv is None:
       return None
